@@ -265,6 +265,31 @@ Proof.
                                C07_apply_single_source_updates).
 Qed.
 
+(* SearchDefBase: the constraints argument is kept as given, the id is
+   generated once per object (cached_property over uuid4), and the
+   `constraints` property is the dict {c.id: c}: its keys, in insertion
+   order, are the model's constraints_of (duplicates collapse) *)
+Theorem C07_searchdefbase_init_flows :
+  writes_table ["constraints_attr"] tk_searchdefbase_init
+  = w_searchdefbase_init /\
+  tk_searchdefbase_id = [SEv (Call "uuid4"); SExit] /\
+  searchdef_id_cached = true.
+Proof. vm_compute. repeat split. Qed.
+
+Theorem C07_constraints_property_shape :
+  tk_searchdefbase_constraints
+  = [SEv (Rd "constraint_id"); SEv (Rd "constraints_attr"); SExit].
+Proof. vm_compute. reflexivity. Qed.
+
+Theorem C07_constraints_dict_is_constraints_of :
+  forall cs : list Z,
+    dict_keys (searchdef_constraints_items (fun c => c) cs)
+    = constraints_of cs.
+Proof.
+  exact (constraints_dict_keys (@searchdef_constraints_items Z)
+                               (fun _ _ => eq_refl)).
+Qed.
+
 (* ---- non-vacuity ---- *)
 (* pattern 1 matches every line (group 0 = value 10+i).  d1 carries
    constraint 1, d2 none.  Lines: undated, too old, in window, undated,
@@ -340,3 +365,5 @@ Print Assumptions C07_neighbours_unaffected.
 Print Assumptions C07_restricted_file_not_seeked.
 Print Assumptions C07_own_constraint_exact_current_constants.
 Print Assumptions C07_apply_single_is_model.
+Print Assumptions C07_constraints_dict_is_constraints_of.
+Print Assumptions C07_searchdefbase_init_flows.
